@@ -135,3 +135,36 @@ Theorem C07_fragments_losses :
   (forall a m s, ~ s + (1 # 100000000) == 0 -> ppo_adv_norm a m s == (a - m) / (s + (1 # 100000000)) /\ a2c_adv_norm a m s == (a - m) / (s + (1 # 100000000))).
 Proof. exact (conj frag_ppo_loss (conj frag_a2c_loss (conj frag_surr (conj frag_adv_norm_model frag_adv_norm)))). Qed.
 Print Assumptions C07_fragments_losses.
+
+(* ---------------- optimizer-facing logic ---------------- *)
+(* _update_learning_rate / update_learning_rate: every param group of every optimizer is set to
+   schedule(progress_remaining); the regenerated code assigns the value it is given and is given the
+   schedule at the current progress *)
+Theorem C07_learning_rate_application :
+  (forall sched progress opts,
+     length (apply_lr sched progress opts) = length opts /\
+     Forall2 (fun new old => length new = length old /\ Forall (fun lr => lr = sched progress) new) (apply_lr sched progress opts) opts) /\
+  (forall lr p, lr_assigned lr == lr /\ lr_progress_arg p == p) /\
+  (forall sched progress opts,
+     Forall (Forall (fun lr => lr == lr_assigned (sched (lr_progress_arg progress)))) (apply_lr (fun p => sched (lr_progress_arg p)) progress opts)).
+Proof. exact (conj apply_lr_spec (conj frag_lr frag_lr_model)). Qed.
+Print Assumptions C07_learning_rate_application.
+
+Example C07_lr_example : apply_lr (fun p => (3 # 1000) * p) (1 # 2) [[1; 1]; [7]] = [[(3 # 1000) * (1 # 2); (3 # 1000) * (1 # 2)]; [(3 # 1000) * (1 # 2)]].
+Proof. reflexivity. Qed.
+
+(* SAC set-up: target_entropy "auto" = -prod(action shape); ent_coef "auto" starts at 1, "auto_x" at x *)
+Theorem C07_sac_temperature_setup :
+  (forall shape x,
+     sac_target_entropy_Q None shape == sac_auto_target_entropy (inject_Z (fold_right Z.mul 1%Z shape)) /\
+     sac_init_alpha_Q (EntAuto None) == sac_default_init /\
+     sac_init_alpha_Q (EntAuto (Some x)) == sac_log_arg 1 x) /\
+  (forall d, sac_target_entropy_Q None [d] == - inject_Z d).
+Proof. exact (conj frag_sac_setup sac_target_entropy_vector). Qed.
+Print Assumptions C07_sac_temperature_setup.
+
+(* the learned coefficient starts at the parsed value: exp(log_ent_coef) = init; "auto" starts at log 1 = 0 *)
+Theorem C07_sac_log_ent_coef_init : forall s, 0 < sac_init_alpha_Q s ->
+  (exp (sac_log_alpha_init s) = Q2R (sac_init_alpha_Q s) /\ sac_log_alpha_init (EntAuto None) = 0)%R.
+Proof. exact sac_log_alpha_init_spec. Qed.
+Print Assumptions C07_sac_log_ent_coef_init.
